@@ -1,5 +1,7 @@
 import TinyFlux.Generated.Footprint
 import TinyFlux.Model.Footprint
+import TinyFlux.Generated.CallGraph
+import TinyFlux.Model.CallGraph
 
 /-! # C09: the state the code keeps is the state the Model has (queries)
 
@@ -17,5 +19,18 @@ theorem state_is_the_models_state :
 theorem no_hidden_state :
     Generated.moduleState.lookup "queries" = Model.Footprint.modules.lookup "queries" ∧
     Generated.classState.map (·.1) = Model.Footprint.classNames := by decide
+
+/-- every function of these classes / modules calls, catches and raises exactly what it did when the Model was
+    written against it and validated (`Model/CallGraph.lean`); and there is no table the Model does not know -/
+theorem code_uses_the_modelled_primitives :
+    Generated.calls_queries_CompoundQuery = Model.CallGraph.calls_queries_CompoundQuery ∧
+    Generated.calls_queries_SimpleQuery = Model.CallGraph.calls_queries_SimpleQuery ∧
+    Generated.calls_queries_BaseQuery = Model.CallGraph.calls_queries_BaseQuery ∧
+    Generated.calls_queries_TagQuery = Model.CallGraph.calls_queries_TagQuery ∧
+    Generated.calls_queries_FieldQuery = Model.CallGraph.calls_queries_FieldQuery ∧
+    Generated.calls_queries_MeasurementQuery = Model.CallGraph.calls_queries_MeasurementQuery ∧
+    Generated.calls_queries_TimeQuery = Model.CallGraph.calls_queries_TimeQuery ∧
+    Generated.calls_queries_toplevel = Model.CallGraph.calls_queries_toplevel ∧
+    Generated.callGraphTables = Model.CallGraph.callGraphTables := ⟨rfl, rfl, rfl, rfl, rfl, rfl, rfl, rfl, rfl⟩
 
 end TinyFlux.Props.C09
